@@ -29,7 +29,7 @@ from props import c14 as c14suite
 
 RULE = ('generated reference problems (5-8 leaves, 2-3 levels, 10-16 genes, '
         '8-20 query cells); per stage the ungated run fixes n_workers, then '
-        'every (thorough) / 3 (quick) of the completion orders feasible for '
+        'every (thorough; 8 sampled on the 4th problem) / 3 (quick) of the completion orders feasible for '
         '(n_workers, n_processors) as enumerated by the Lean model, gating '
         'modes entry/exit; hash seeds {0,random} (quick) / {0,1,2,random} '
         '(thorough); worker counts 2..4 with equal effective chunk size. '
@@ -60,11 +60,59 @@ def canon_of(st, fixture):
     return json.loads(json.dumps(c, sort_keys=True))
 
 
-def run_plain(st, n_proc):
+def observe_for(st):
+    """what to record about every worker at dispatch (mapping: its row range
+    and the state of the generator it is handed)"""
+    if st.name != 'mapping':
+        return None
+
+    def observe(index, kwargs):
+        state = kwargs['rng'].bit_generator.state
+        return [int(kwargs['r0']), int(kwargs['r1']),
+                [int(state['state']['state']), int(state['state']['inc'])]]
+    return observe
+
+
+def expected_seeds(st, chunks):
+    """independent statement of seed_by_dispatch: chunk k gets
+    default_rng(k-th draw of default_rng(rng_seed).integers(99, 2**32))"""
+    import numpy as np
+    parent = np.random.default_rng(st.rng_seed)
+    out = []
+    for r0, r1 in chunks:
+        child = np.random.default_rng(parent.integers(99, 2 ** 32))
+        state = child.bit_generator.state
+        out.append([r0, r1, [int(state['state']['state']),
+                             int(state['state']['inc'])]])
+    return out
+
+
+def check_seeds(ctx, st, n_proc, observed, detail):
+    """mapping: every worker was seeded by dispatch index, whatever the
+    schedule"""
+    n_rows = len(st.prob.query_ids)
+    eff = min(max(1, -(-n_rows // n_proc)), st.chunk_size)
+    chunks = [[r0, min(n_rows, r0 + eff)] for r0 in range(0, n_rows, eff)]
+    want = expected_seeds(st, chunks)
+    ctx.count('seed-lists-checked')
+    if observed != want:
+        d = dict(detail)
+        d.update(kind='seeds', observed=observed, expected=want)
+        ctx.violation('C04/seed/not-kth-draw',
+                      'mapping: the generators handed to the workers are not '
+                      'default_rng(k-th draw of the parent generator) for '
+                      'the documented chunks', d)
+        return False
+    return True
+
+
+def run_plain(st, n_proc, ctx=None, detail=None):
     err, timed_out, rec = c14suite.run_stage(
-        st, n_proc, faults.count_workers(st))
+        st, n_proc, faults.count_workers(st, observe_for(st)))
     if err is not None or timed_out:
         raise core.InfraError('stage %s does not run: %s' % (st.name, err))
+    if ctx is not None and st.name == 'mapping':
+        check_seeds(ctx, st, n_proc, rec.observed, detail or {})
     return rec.started
 
 
@@ -86,7 +134,8 @@ def check_order(ctx, fixture, st, prob_seed, n_leaves, n_proc, order, mode,
               'order': list(order), 'mode': mode}
     c14suite.clear(st)
     err, timed_out, rec = c14suite.run_stage(
-        st, n_proc, schedules.forced_order(st, order, mode))
+        st, n_proc, schedules.forced_order(st, order, mode,
+                                           observe=observe_for(st)))
     if rec.gate_timeouts or timed_out:
         raise core.InfraError(
             'could not force completion order %r (%s) on %s: %d gate '
@@ -102,6 +151,9 @@ def check_order(ctx, fixture, st, prob_seed, n_leaves, n_proc, order, mode,
         ctx.violation('C04/order/%s/raises' % fixture,
                       '%s fails under completion order %r (%s): %s'
                       % (fixture, order, mode, err), detail)
+        return
+    if fixture == 'mapping' and not check_seeds(ctx, st, n_proc,
+                                                rec.observed, detail):
         return
     got = canon_of(st, fixture)
     if got != base:
@@ -137,7 +189,7 @@ def check_nproc(ctx, st, prob_seed, n_leaves, base_np, base):
         trace = st.d / 'trace_np'
         os.environ['CELL_TYPE_MAPPER_VERIF_TRACE'] = str(trace)
         try:
-            run_plain(st, p)
+            run_plain(st, p, ctx, detail)
         finally:
             os.environ.pop('CELL_TYPE_MAPPER_VERIF_TRACE', None)
         ev = read_trace(trace)
@@ -237,8 +289,11 @@ def check_reorder(ctx, rng, n_cases):
 
 
 def hash_seed_runs(ctx, prob_seed, n_leaves, n_proc, base, seeds):
+    # the selection gets its query gene names as a set (what the CLI passes
+    # when there is no query file): set iteration order is what the hash seed
+    # changes
     spec = {'prob_seed': prob_seed, 'n_leaves': n_leaves, 'n_proc': n_proc,
-            'fixtures': FIXTURES}
+            'fixtures': FIXTURES, 'selection_query_as_set': True}
     env = dict(os.environ)
     env['PYTHONPATH'] = os.pathsep.join(
         [str(core.VERIF / 'harness')] +
@@ -283,7 +338,9 @@ def run_problem(ctx, prob_seed, n_leaves, n_proc, n_orders, hash_seeds):
         for fixture in FIXTURES:
             with pipeline.quiet():
                 st = stagefix.STAGES[fixture](prob, d)
-            n_workers = run_plain(st, n_proc)
+            n_workers = run_plain(st, n_proc, ctx, {
+                'kind': 'rerun', 'fixture': fixture, 'prob_seed': prob_seed,
+                'n_leaves': n_leaves, 'n_processors': n_proc})
             base = canon_of(st, fixture)
             base_all[fixture] = base
             ctx.count('workers:%s:%d' % (fixture, n_workers))
@@ -345,14 +402,26 @@ def run(ctx):
                     hash_seeds=['0', '1', '2', 'random'])
         run_problem(ctx, rng.randrange(2 ** 31), 7, 2, n_orders=None,
                     hash_seeds=[])
-        run_problem(ctx, rng.randrange(2 ** 31), 6, 3, n_orders=6,
+        run_problem(ctx, rng.randrange(2 ** 31), 6, 3, n_orders=None,
                     hash_seeds=[])
+        run_problem(ctx, rng.randrange(2 ** 31), 8, 3, n_orders=8,
+                    hash_seeds=['random'])
 
 
 def replay(ctx, data, from_corpus=False):
     d = data.get('detail', data)
     kind = d.get('kind')
-    if kind in ('order', 'rerun'):
+    if kind == 'seeds':
+        prob = c14suite.make_problem(d['prob_seed'], d.get('n_leaves'))
+        with pipeline.workdir('ctmverif_c04_') as wd:
+            with pipeline.quiet():
+                st = stagefix.Mapping(prob, wd)
+            np_ = d['n_processors']
+            np_ = np_[-1] if isinstance(np_, list) else np_
+            ctx.case(None)
+            run_plain(st, np_, ctx, {k: v for k, v in d.items()
+                                     if k not in ('observed', 'expected')})
+    elif kind in ('order', 'rerun'):
         prob = c14suite.make_problem(d['prob_seed'], d.get('n_leaves'))
         with pipeline.workdir('ctmverif_c04_') as wd:
             with pipeline.quiet():
